@@ -141,6 +141,32 @@ def _impl_predicates(inp, impl):
     return None
 
 
+def _judge_repack(ctx, tie, mm):
+    """A disagreement on a repacketizer line: re-run the line on the implementation and evaluate the carriage clauses
+    (output parses, audio frames byte-identical, extensions per frame identical, length / guard) — harness mode `judge`."""
+    key = mm.get('input', '')
+    cache = ctx.__dict__.setdefault('_c16_judge', {})
+    if key not in cache:
+        h = ctx.harness('c16_ext', ['c16_ext.c'], variant='san')
+        env = dict(os.environ)
+        env.setdefault('ASAN_OPTIONS', 'detect_leaks=0:abort_on_error=0')
+        p = subprocess.run([h, 'judge'], input=key + '\n', stdout=subprocess.PIPE, stderr=subprocess.PIPE, text=True, env=env)
+        w = None
+        for l in p.stdout.split('\n'):
+            if l.startswith('W '):
+                parts = [x.strip() for x in l[2:].split(' | ')]
+                if len(parts) >= 4:
+                    w = {'suite': tie.name, 'input': parts[1][:200000], 'expected': parts[2], 'observed': parts[3],
+                         'why': 'property clause "%s" fails on the implementation (model answer: %s)' % (parts[0], str(mm.get('model'))[:300])}
+                    break
+            elif l.startswith('O SANITIZER') or l.startswith('O ABORT'):
+                w = {'suite': tie.name, 'input': key[:200000], 'expected': 'no sanitizer report / assert', 'observed': l[2:],
+                     'why': 'memory-safety failure on this input'}
+                break
+        cache[key] = w
+    return cache[key]
+
+
 def classify(ctx, tie, mm):
     # A model/implementation disagreement is not by itself a violation of the (relational) property.
     # Sanitizer reports and aborts are ("never read outside the buffer"); otherwise the single-call clauses
@@ -149,6 +175,8 @@ def classify(ctx, tie, mm):
     if impl in ('SANITIZER', 'ABORT', 'SIGSEGV') or impl.startswith('GUARD_OVERWRITTEN'):
         return {'suite': tie.name, 'input': mm.get('input', ''), 'expected': mm.get('model'), 'observed': impl,
                 'why': 'memory-safety failure (sanitizer report, hardening assert or guard bytes overwritten) on this input'}
+    if str(mm.get('input', '')).startswith('repack '):
+        return _judge_repack(ctx, tie, mm)
     try:
         why = _impl_predicates(mm.get('input', ''), impl)
     except Exception:
@@ -187,7 +215,9 @@ def search(ctx):
             'oracle': 'generate→parse_ext round trip (per frame, in order, same payloads), dry-run size == written size, exact size '
                       'suffices, smaller refused with guard bytes intact, count == count_ext == parse length == iterator, reported '
                       'extensions inside the buffer with 3<=id<=127 and frame<nb_frames, parse→generate→parse fixed point, '
-                      'repacketizer merge/split carries each extension to the output frame of its audio frame',
+                      'repacketizer merge/split/pad_impl (incl. extension blocks of 253..256, 507..511, 761..766, 1015..1021, 1270..1276 bytes): output '
+                      'parses, audio frames byte-identical, each extension on the output frame of its audio frame with identical payload, '
+                      'length <= maxlen, guard bytes intact',
             'samples': samples, 'witnesses': wit}
 
 
